@@ -22,8 +22,8 @@ def parseKeys (spec : String) : Res (List Key) :=
 
 def parseInt (s : String) : Option Int := s.toInt?
 
-def parseCheck (s : String) : Option Check :=
-  match splitOnChar ':' s with
+def parseCheckPlain (toks : List String) : Option Check :=
+  match toks with
   | ["lower", v] => (parseInt v).map .lower
   | ["upper", v] => (parseInt v).map .upper
   | ["range", a, b] => do let a ← parseInt a; let b ← parseInt b; pure (.range a b)
@@ -32,6 +32,17 @@ def parseCheck (s : String) : Option Check :=
   | ["minlen", n] => n.toNat?.map .minLength
   | ["maxlen", n] => n.toNat?.map .maxLength
   | _ => none
+
+/-- one `check=` option; the outer `none` = malformed (bad-op), an inner `throw` = the definition is
+    refused at set-up (`std::regex`'s constructor throws std::regex_error, a std::runtime_error, for
+    an invalid pattern; a pattern outside the modelled subset is refused the same way) -/
+def parseCheck (s : String) : Option (Res Check) :=
+  match splitOnChar ':' s with
+  | ["pattern", hx] =>
+    (word hx).map (fun p => match Regex.parse p with
+      | some r => .ok (.pattern r)
+      | none => .throw .runtime_error)
+  | toks => (parseCheckPlain toks).map .ok
 
 def parseCard (s : String) : Option Card :=
   match splitOnChar ':' s with
@@ -63,7 +74,7 @@ def parseInit (k : Kind) (s : String) : Option DVal :=
 def parseArg (toks : List String) : Option (Res ArgDef × Option String) := do
   let kind ← (kv toks "kind").bind kindOf
   let keySpec ← kv toks "key"
-  let mut checks : List Check := []
+  let mut checks : List (Res Check) := []
   let mut cons : List (CType × String) := []
   for t in toks do
     if t.startsWith "check=" then
@@ -85,6 +96,7 @@ def parseArg (toks : List String) : Option (Res ArgDef × Option String) := do
   let flagInit := (kv toks "init") == some "1"
   let r : Res ArgDef := do
     let key ← Key.parse keySpec.toList
+    let checks ← checks.mapM id
     let cs ← cons.mapM (fun (ct, spec) => do let ks ← parseKeys spec; pure (ct, ks))
     pure { key := key, kind := kind, vmode := vmode, card := card, mandatory := toks.contains "mandatory",
            checks := checks, constraints := cs, multi := toks.contains "multi", sep := sep,
@@ -141,17 +153,30 @@ def tokenStream (argv : List Word) : String :=
   | .oob w => s!"oob {w}"
 
 /-- resolve the keys of a handler constraint as `Handler::validArguments` does (simplified: every
-    token must designate a defined argument, no argument twice) -/
-def resolveGlob (cfg : Cfg) (spec : String) : Res (List Key) := do
+    token must designate a defined argument, no argument twice); for a value constraint
+    (`validValueArguments`) also: every argument has the destination type of the first one
+    ("arguments listed for constraint have different types"), a disjoint constraint stores at most
+    two handlers ("can handle only two arguments"), and at least two arguments are listed — each
+    refusal is a std::invalid_argument -/
+def resolveGlob (cfg : Cfg) (gk : GKind) (spec : String) : Res (List Key) := do
   let toks := (splitOnChar ';' spec).filter (· ≠ "")
   if toks.isEmpty then .throw .invalid_argument else pure ()
+  let isValue := gk == .differ || gk == .disjoint
   let mut out : List Key := []
+  let mut firstKind : Option Kind := none
   for t in toks do
     let k ← Key.parse t.toList
     match ← findArg cfg.abbr cfg.table k with
     | none => .throw .invalid_argument
     | some (_, d) =>
-      if out.contains d.key then .throw .invalid_argument else out := out ++ [d.key]
+      if isValue then
+        match firstKind with
+        | some fk => if fk != d.kind then .throw .invalid_argument else pure ()
+        | none => firstKind := some d.kind
+      if out.contains d.key then .throw .invalid_argument
+      if gk == .disjoint && out.length == 2 then .throw .invalid_argument
+      out := out ++ [d.key]
+  if isValue && out.length < 2 then .throw .invalid_argument else pure ()
   pure out
 
 def splitBar (s : String) : List String := splitOnChar '|' s
@@ -180,12 +205,13 @@ def step (s : St) (line : String) : St × String :=
       | .oob _ => ({ s with bErr := s.bErr <|> some .other }, "ok")
   | ["pa", "glob", kind, spec] =>
     let gk := match kind with
-      | "allof" => some GKind.allOf | "anyof" => some GKind.anyOf | "oneof" => some GKind.oneOf | _ => none
+      | "allof" => some GKind.allOf | "anyof" => some GKind.anyOf | "oneof" => some GKind.oneOf
+      | "differ" => some GKind.differ | "disjoint" => some GKind.disjoint | _ => none
     match gk with
     | none => (s, "bad-op")
     | some gk =>
       if s.bErr.isSome then (s, "ok") else
-      match resolveGlob s.building spec with
+      match resolveGlob s.building gk spec with
       | .ok ks => ({ s with building := { s.building with globals := s.building.globals ++ [{ kind := gk, keys := ks }] } }, "ok")
       | .throw e => ({ s with bErr := some e }, "ok")
       | .oob _ => ({ s with bErr := some .other }, "ok")
